@@ -338,11 +338,26 @@ def _udp(exe, r, run, stats, w, sim, wit):
         ok3 = [e for e in sim.log if e["e"] == "rsp" and e.get("n") == 0 and e["tok"] == "ca03"
                and e["code"] == 69 and e.get("phex") == BODY.hex()]
         if not ok3:
-            # (a server that does Appendix B.2 is a configuration of its own: a recorded finding
-            # lives there, see DESIGN 7.3 - the signature says which kind of server it was)
+            # Why it failed decides the signature.  One way is a recorded finding (DESIGN 7.3):
+            # the session's NSTART slot is taken although none of its messages is in flight, so
+            # the canary is parked behind it - the state an unauthenticated datagram naming a
+            # request in flight leaves behind (C15's finding).  Every other way (rejected by
+            # the server, no answer, a wrong answer) keeps the plain signature.
+            ps = [e for e in sim.cmd("peek 0") if e["e"] == "psess" and e.get("client") and
+                  e.get("sess") == 1]
+            parked = bool(ps) and ps[0].get("delayq", 0) > 0 and ps[0].get("sendq", 0) == 0 \
+                and ps[0].get("con_active", 0) > 0
+            # ... or the same state on the server's side of that session (its separate
+            # responses are Confirmable): nothing of the whole context in flight, yet a session
+            # with its slot taken and a response parked
+            pk = sim.cmd("peek 1")
+            if not parked and any(e["e"] == "peek" and e.get("sendqueue") == 0 for e in pk):
+                parked = any(e["e"] == "psess" and not e.get("client") and
+                             e.get("con_active", 0) > 0 and e.get("delayq", 0) > 0 for e in pk)
+                ps = ps + [e for e in pk if e["e"] == "psess" and e.get("delayq", 0) > 0][:2]
             run.violation("canary-failed/oscore-session" + (
-                "/server-with-appendix-b2" if wit.get("oscore_server_appendix_b2") else ""),
-                dict(wit, classes=sorted(classes)),
+                "/slot-held-by-no-message" if parked else ""),
+                dict(wit, classes=sorted(classes), sessions=ps[:3]),
                           "after the hostile input a protected GET of the genuine OSCORE client "
                           "was not answered 2.05 with the resource body")
     m = got.get(b"\xca\x01")
